@@ -34,8 +34,9 @@ TOKEN = re.compile(
 
 
 def strip_comments(text, lang):
+    """comments are blanked out (same length, newlines kept) so that offsets stay valid"""
     for pat in COMMENT[lang]:
-        text = re.sub(pat, ' ', text, flags=re.S)
+        text = re.sub(pat, lambda m: re.sub(r'[^\n]', ' ', m.group()), text, flags=re.S)
     return text
 
 
@@ -49,20 +50,21 @@ def tokenize(text, lang, matlab_strings=False):
             continue
         if k == 'bad':
             raise IllFormed(f'unexpected character {v!r}')
+        sp = (m.start(), m.end())
         if k == 'str':
-            toks.append(('str', v[1:-1], v[0]))
+            toks.append(('str', v[1:-1], v[0], sp))
         elif k == 'hole':
-            toks.append(('num', holes.term_of(v)))
+            toks.append(('num', holes.term_of(v), sp))
         elif k == 'num':
             if '.' in v:
                 raise IllFormed('unexpected real literal')
-            toks.append(('num', int(v)))
+            toks.append(('num', int(v), sp))
         elif k == 'name':
-            toks.append(('name', v))
+            toks.append(('name', v, sp))
         elif k == 'nl':
-            toks.append(('nl',))
+            toks.append(('nl', sp))
         else:
-            toks.append(('op', v))
+            toks.append(('op', v, sp))
     return toks
 
 
@@ -197,13 +199,14 @@ class Parser:
                 return e
 
 
-def statements(text, lang, seps=(';', 'nl'), assign=('=',)):
-    """split into statements at top-level separators and parse each as  [lhs ASSIGN] expr"""
+def statements(text, lang, seps=(';', 'nl'), assign=('=',), spans=False):
+    """split into statements at top-level separators and parse each as  [lhs ASSIGN] expr.
+    With spans=True returns (statements, [(start, end) character span of each statement])."""
     toks = tokenize(text, lang)
     out = []
     cur = []
     depth = 0
-    for tok in toks + [('nl',)]:
+    for tok in toks + [('nl', (len(text), len(text)))]:
         if tok[0] == 'op' and tok[1] in '([{':
             depth += 1
         if tok[0] == 'op' and tok[1] in ')]}':
@@ -219,8 +222,12 @@ def statements(text, lang, seps=(';', 'nl'), assign=('=',)):
             cur.append(tok)
     if depth != 0:
         raise IllFormed('unbalanced brackets')
+    if cur:
+        out.append(cur)          # last statement without a terminating separator
     res = []
+    sp = []
     for st in out:
+        sp.append((st[0][-1][0], st[-1][-1][1]))
         p = Parser(st + [('eof',)])
         lhs = None
         # assignment?
@@ -232,6 +239,8 @@ def statements(text, lang, seps=(';', 'nl'), assign=('=',)):
         if p.peek()[0] != 'eof':
             raise IllFormed(f'trailing tokens in statement: {p.peek()!r}')
         res.append((lhs, e))
+    if spans:
+        return res, sp
     return res
 
 
